@@ -95,6 +95,7 @@ from .errors import (
     HookError,
     NotGitRepository,
     ObjectFormatException,
+    RefFormatError,
     UnexpectedCommandError,
 )
 from .file import FileLocked
@@ -1566,6 +1567,10 @@ class ReceivePackHandler(PackHandler):
                     current = self.repo.refs[ref]
                 except KeyError:
                     current = zero_sha
+                except RefFormatError:
+                    ref_results.append((ref, b"funny refname"))
+                    has_failure = True
+                    continue
                 if current != oldsha:
                     ref_status = b"failed to update ref"
                 elif sha != zero_sha and sha not in self.repo.object_store:
@@ -1604,6 +1609,8 @@ class ReceivePackHandler(PackHandler):
                             ref_status = b"failed to write"
                 except KeyError:
                     ref_status = b"bad ref"
+                except RefFormatError:
+                    ref_status = b"funny refname"
                 if ref_status != b"ok":
                     failed = (ref, ref_status)
                     break
@@ -1664,6 +1671,11 @@ class ReceivePackHandler(PackHandler):
                             ref_status = b"failed to write"
                 except KeyError:
                     ref_status = b"bad ref"
+                except RefFormatError:
+                    # Report it for this ref instead of dropping the
+                    # connection without any status for the refs already
+                    # updated.
+                    ref_status = b"funny refname"
                 yield (ref, ref_status)
 
     def _report_status(self, status: Sequence[tuple[bytes, bytes]]) -> None:
